@@ -286,12 +286,14 @@ def run(ctx, prog, res):
                 for m in re.finditer(r"Framable::succ\(([^()]*(?:\([^()]*\))?[^()]*)\)", ret):
                     n9 += 1
                     arg = m.group(1)
-                    guarded = any(t.startswith("PartialEq::eq(") and arg in t and "FRAME_END" in t and ((taken == [0]) or (taken is None and excl and 0 not in excl)) for t, taken, excl in conds)
+                    is_false = lambda taken, excl: (taken == [0]) or (taken is None and excl and 0 not in excl)
+                    is_true = lambda taken, excl: (taken is not None and taken != [0]) or (taken is None and excl and 0 in excl)
+                    guarded = any(arg in t and "FRAME_END" in t and ((t.startswith("PartialEq::eq(") and is_false(taken, excl)) or (t.startswith("PartialEq::ne(") and is_true(taken, excl))) for t, taken, excl in conds)
                     r9.check(guarded, {"fn": fid.split("::")[-1], "succ_of": arg, "only_when": "!= FRAME_END"}, "C07.R9:succ:%s" % fid.split("::")[-1],
                              "%s takes the successor of the end of an inclusive range without having excluded FRAME_END: for a dimension whose successor does not wrap (years: 9999 -> 10000) the paving gets a bound outside the frame, and the normal form contains a range like `10000-9999` that cannot be read back" % fid, lib.where_of(fn))
                 if fid.endswith("to_range_strict") and "Frame::End{}" in ret:
                     n9 += 1
-                    eq_true = any(t.startswith("PartialEq::eq(") and "FRAME_END" in t and ((taken is not None and taken != [0]) or (taken is None and excl and 0 in excl)) for t, taken, excl in conds)
+                    eq_true = any("FRAME_END" in t and ((t.startswith("PartialEq::eq(") and ((taken is not None and taken != [0]) or (taken is None and excl and 0 in excl))) or (t.startswith("PartialEq::ne(") and ((taken == [0]) or (taken is None and excl and 0 not in excl)))) for t, taken, excl in conds)
                     r9.check(eq_true, {"fn": "to_range_strict", "Frame::End_only_when": "end == FRAME_END"}, "C07.R9:end", "to_range_strict ends a range at Frame::End on a path where its end was not found equal to FRAME_END", lib.where_of(fn))
                 for m in re.finditer(r"Framable::pred\(([^()]*)\)", ret):
                     n9 += 1
